@@ -48,6 +48,15 @@ THEOREMS = {
     'resize_sizes_1101': ('resizeSizes_1101', ['C02', 'C10', 'C12']),
     'resize_sizes_1110': ('resizeSizes_1110', ['C02', 'C10', 'C12']),
     'resize_sizes_1111': ('resizeSizes_1111', ['C02', 'C10', 'C12']),
+    # the constructor's reconciliation of n_int with the other sizes (_init_size)
+    'init_sizes_0110': ('initSizes_0110', ['C06', 'C02']),
+    'init_sizes_0101': ('initSizes_0101', ['C06', 'C02']),
+    'init_sizes_0011': ('initSizes_0011', ['C06', 'C02']),
+    'init_sizes_0111': ('initSizes_0111', ['C06', 'C02']),
+    'init_sizes_1110': ('initSizes_1110', ['C06', 'C02']),
+    'init_sizes_1101': ('initSizes_1101', ['C06', 'C02']),
+    'init_sizes_1011': ('initSizes_1011', ['C06', 'C02']),
+    'init_sizes_1111': ('initSizes_1111', ['C06', 'C02']),
     # elementwise kernels of utils.py
     'wrap_elem': ('wrapElem', ['C03', 'C01', 'C18']), 'clip_elem': ('clipElem', ['C01', 'C02', 'C05']), 'int_clip_elem': ('intClipElem', ['C02', 'C15']),
 }
